@@ -213,11 +213,11 @@ func c07Controller(ctx *Ctx) {
 		}
 		written := rec.DevPwmAfter
 		if rec.Request < prevReq {
-			ctx.Violation("controller:request-decreases-with-curve:"+sc.Fan.Kind+":"+sc.Map.Kind, fmt.Sprintf("curve %d -> request %d, curve %d -> request %d", rec.Step.Curve-1, prevReq, rec.Step.Curve, rec.Request), sc)
+			ctx.Violation("controller:request-decreases-with-curve:"+sc.Fan.Label()+":"+sc.Map.Kind, fmt.Sprintf("curve %d -> request %d, curve %d -> request %d", rec.Step.Curve-1, prevReq, rec.Step.Curve, rec.Request), sc)
 			return true
 		}
 		if w.PwmMap != nil && written < prevW {
-			ctx.Violation("controller:written-decreases-with-curve:"+sc.Fan.Kind+":"+sc.Map.Kind, fmt.Sprintf("curve %d -> written %d, curve %d -> written %d", rec.Step.Curve-1, prevW, rec.Step.Curve, written), sc)
+			ctx.Violation("controller:written-decreases-with-curve:"+sc.Fan.Label()+":"+sc.Map.Kind, fmt.Sprintf("curve %d -> written %d, curve %d -> written %d", rec.Step.Curve-1, prevW, rec.Step.Curve, written), sc)
 			return true
 		}
 		if prevReq >= 0 && rec.Request > prevReq {
@@ -259,7 +259,7 @@ func c07Controller(ctx *Ctx) {
 				break
 			}
 			if written < prevW {
-				ctx.Violation("controller:written-decreases-with-curve-from-same-state:"+sc.Fan.Kind+":"+sc.Map.Kind,
+				ctx.Violation("controller:written-decreases-with-curve-from-same-state:"+sc.Fan.Label()+":"+sc.Map.Kind,
 					fmt.Sprintf("fan reporting %d before the cycle: curve %d -> fan at %d, curve %d -> fan at %d; map %v", d0, prevC, prevW, c, written, m), map[string]interface{}{"scenario": sc, "fanReports": d0, "curve1": prevC, "curve2": c})
 				return
 			}
